@@ -14,17 +14,17 @@ def latin1Decode (b : Bytes) : Str := b.map fun x => Char.ofNat x.toNat
 /-- `val.encode('utf8').decode('latin1')` (how `headerlist` makes header values WSGI strings) -/
 def recodeLatin1 (s : Str) : Str := latin1Decode (utf8 s)
 
-def isAsciiAlpha (c : Char) : Bool := ('a' ≤ c && c ≤ 'z') || ('A' ≤ c && c ≤ 'Z')
+def wsgiIsAsciiAlpha (c : Char) : Bool := ('a' ≤ c && c ≤ 'z') || ('A' ≤ c && c ≤ 'Z')
 
 /-- `str.title()` restricted to ASCII letters as the only cased characters (header names) -/
-def titleGo : Bool → Str → Str
+def wsgiTitleGo : Bool → Str → Str
   | _, [] => []
   | prevCased, c :: cs =>
-    if isAsciiAlpha c then
-      (if prevCased then c.toLower else c.toUpper) :: titleGo true cs
-    else c :: titleGo false cs
+    if wsgiIsAsciiAlpha c then
+      (if prevCased then c.toLower else c.toUpper) :: wsgiTitleGo true cs
+    else c :: wsgiTitleGo false cs
 
-def titleAscii (s : Str) : Str := titleGo false s
+def titleAscii (s : Str) : Str := wsgiTitleGo false s
 
 /-- `ombott.common_helpers.html_escape`: the five replacements, `&` first, so the chained
 `replace` calls act as a per-character map -/
